@@ -263,6 +263,15 @@ func VerifProbeStdlib() {
 		}
 		want, wn := probeReencode(s3)
 		nd.Assert(sb.String() == want && n == wn, "utf8-range-and-writerune")
+	case 29: // look-up tables indexed by a symbolic byte: a [256]bool, a string constant, a [16]byte through hex.Encode
+		nd.Assert(probeTable[b[0]] == (b[0] == '.' || b[0] == '\\' || b[0] == 'x'), "bool-table")
+		nd.Assert("0123456789abcdef"[b[1]&15] == hex.EncodeToString(b[1:2])[1], "string-table")
+		var dst [4]byte
+		hex.Encode(dst[:], b)
+		nd.Assert(string(dst[:]) == hex.EncodeToString(b), "hex-encode")
+		var u8 [8]byte
+		binary.BigEndian.PutUint64(u8[:], uint64(b[0])<<8|uint64(b[1]))
+		nd.Assert(u8[7] == b[1] && u8[6] == b[0] && u8[0] == 0, "binary-putuint64")
 	case 27: // atomic.Value reinterprets an interface's words through unsafe.Pointer: expected to be *unsupported*
 		var av atomic.Value
 		av.Store(s)
@@ -341,3 +350,10 @@ func probeReencode(s string) (string, int) {
 	}
 	return out, n
 }
+
+var probeTable = func() (t [256]bool) {
+	for _, c := range []byte(".\\x") {
+		t[c] = true
+	}
+	return
+}()
